@@ -436,6 +436,20 @@ DenPlain(G, k, p, slow) ==
                [] e = "duration" -> DenDurationFields(p.fs)
                [] OTHER -> RErr)
 
+\* effective node kinds that accept SOME presentation of serde type c (the non-error arms of DenPlain)
+TypeAccepts(c) ==
+    CASE c \in {"unit", "none"} -> {"null"}
+      [] c = "bool" -> {"boolean"}
+      [] c \in IntKinds -> IntLike \cup LongLike \cup {"float", "double", "decimal_bytes", "decimal_fixed", "bigdecimal", "enum"}
+      [] c = "f32" -> {"float", "double"}
+      [] c = "f64" -> {"double", "float", "decimal_bytes", "decimal_fixed", "bigdecimal"}
+      [] c \in {"str", "char"} -> StringLike \cup {"bytes", "enum", "fixed", "decimal_bytes", "decimal_fixed", "bigdecimal"}
+      [] c = "bytes" -> StringLike \cup {"bytes", "fixed", "duration"} \cup DecimalLike
+      [] c \in {"unit_struct", "unit_variant"} -> {"null", "string", "bytes", "enum"}
+      [] c \in {"seq", "tuple", "tuple_struct", "tuple_variant"} -> {"array", "bytes", "fixed", "duration", "string"} \cup DecimalLike
+      [] c \in {"map", "struct", "struct_variant"} -> {"map", "record", "duration"}
+      [] OTHER -> {}
+
 \* wrap the result of branch b (1-based position) of a union
 WrapBranch(b, r) == [m |-> r.m, any |-> r.any, vs |-> {[t |-> "un", b |-> b - 1, x |-> v] : v \in r.vs}]
 
@@ -447,12 +461,18 @@ DenUnionByType(G, k, p, slow) ==
         cand  == {b \in 1..nb : Representable(res[b])}
         nat   == {b \in 1..nb : Eff(G[u.variants[b]]) \in Natural(p)}
         rn    == cand \cap nat
+        acc   == {b \in 1..nb : Eff(G[u.variants[b]]) \in TypeAccepts(p.p)}
         pick(b) == [m |-> res[b].m, any |-> res[b].any, vs |-> WrapBranch(b, res[b]).vs]
     IN  IF Cardinality(rn) >= 2 THEN RErr                      \* several equally suitable branches
         ELSE IF cand = {} THEN RErr
         ELSE IF Cardinality(nat) = 1 /\ Cardinality(rn) = 1 THEN pick(CHOOSE x \in rn : TRUE)
         ELSE IF nat = {} /\ Cardinality(cand) = 1 /\ ~res[CHOOSE x \in cand : TRUE].any
-             THEN pick(CHOOSE x \in cand : TRUE)               \* no natural branch, and only one branch can hold the value at all
+             THEN \* no natural branch, and only one branch can hold the value.  It is designated BY TYPE only if it is also the
+                  \* only branch that accepts presentations of this serde type at all; when other branches accept the type (and
+                  \* merely not this value: a str that is no symbol of the enum branch, of the wrong length for the fixed branch)
+                  \* the choice is not determined by the type, and the serializer may refuse (C01 then asks for the branch name)
+                  IF Cardinality(acc) = 1 THEN pick(CHOOSE x \in cand : TRUE)
+                  ELSE [m |-> "free", any |-> FALSE, vs |-> pick(CHOOSE x \in cand : TRUE).vs]
         ELSE IF \E b \in cand : res[b].any THEN RAny
         ELSE [m |-> "free", any |-> FALSE, vs |-> UNION {WrapBranch(b, res[b]).vs : b \in cand}]
 
